@@ -335,6 +335,10 @@ func taxRandomCase(r *rand.Rand) taxCase {
 			case 4:
 				cb.Cat = "IGIC"
 			}
+			if r.Intn(5) == 0 {
+				// rows are kept apart by their extensions, exempt rows included
+				cb.Ext = []string{"es-tbai-exemption=E1", "es-tbai-exemption=E2", "es-tbai-product=goods"}[r.Intn(3)]
+			}
 			row.Taxes = append(row.Taxes, cb)
 			if r.Intn(4) == 0 {
 				rc := jCombo{Cat: "IRPF", Pct: []tr.Amt{randPct(r)}, Sur: []tr.Amt{}}
